@@ -111,8 +111,16 @@ func (p *Parser) AppendLastReturnT() {
 		return
 	}
 
+	// two arrays (or hashes) are of the same kind whatever they hold: they are both
+	// kept, and the def merges their element types
+	lastT := p.lastEvaluatedT.(*base.T)
+
 	for _, candidateT := range p.lastReturnT {
-		if candidateT.IsMatchType(p.lastEvaluatedT.(*base.T)) {
+		if lastT != nil && (lastT.IsArrayType() || lastT.IsHashType()) {
+			break
+		}
+
+		if candidateT.IsMatchType(lastT) {
 			return
 		}
 	}
